@@ -144,8 +144,42 @@ def _fingerprint_modules():
             elif isinstance(v, type) and issubclass(v, enum.Enum):
                 items.append((name, k, 'enum', tuple((m, repr(x.value)) for m, x in v.__members__.items())))
             elif isinstance(v, types.FunctionType):
-                items.append((name, k, 'func', repr(v.__defaults__), repr(v.__kwdefaults__)))
+                items.append((name, k, 'func', repr(v.__defaults__), repr(v.__kwdefaults__), _fp_attrs(v)))
+            elif hasattr(v, 'cache_info') and callable(getattr(v, 'cache_info', None)):
+                # functools.lru_cache / cache wrappers: a memo that fills up during exploration is hidden state
+                items.append((name, k, 'lru', repr(v.cache_info().currsize)))
+            elif isinstance(v, type) and getattr(v, '__module__', '') == name:
+                # class-level mutable attributes (a dict/list/set hoisted to class scope is shared by every instance)
+                for ak in sorted(vars(v)):
+                    av = vars(v)[ak]
+                    if ak.startswith('__'):
+                        continue
+                    if isinstance(av, dict):
+                        items.append((name, k, ak, 'cdict', tuple((repr(a), _fp_val(b)) for a, b in av.items())))
+                    elif isinstance(av, (list, set)):
+                        items.append((name, k, ak, 'clist', tuple(sorted(_fp_val(x) for x in av)) if isinstance(av, set) else tuple(_fp_val(x) for x in av)))
+                    elif hasattr(av, 'cache_info') and callable(getattr(av, 'cache_info', None)):
+                        items.append((name, k, ak, 'clru', repr(av.cache_info().currsize)))
+                    elif isinstance(av, (types.FunctionType, classmethod, staticmethod)):
+                        fn = av.__func__ if isinstance(av, (classmethod, staticmethod)) else av
+                        items.append((name, k, ak, 'cfunc', repr(getattr(fn, '__defaults__', None)), _fp_attrs(fn)))
     return h64(items)
+
+
+def _fp_attrs(fn):
+    """mutable state parked on a function object: attributes and mutable default arguments / closure cells."""
+    out = []
+    for ak, av in sorted(getattr(fn, '__dict__', {}).items()):
+        if isinstance(av, (dict, list, set)):
+            out.append((ak, repr(sorted(map(repr, av)) if isinstance(av, set) else av)[:2000]))
+    for cell in (getattr(fn, '__closure__', None) or ()):
+        try:
+            cv = cell.cell_contents
+        except ValueError:
+            continue
+        if isinstance(cv, (dict, list, set)):
+            out.append(('closure', repr(cv)[:2000]))
+    return tuple(out)
 
 
 def _fp_val(v):
@@ -173,8 +207,9 @@ def _worker(arg):
         _CHECK.run_shard(desc, acc)
         fp1 = _fingerprint_modules()
         if fp0 != fp1:
-            acc.violation('module-level-state-changed-during-exploration', {'shard': repr(desc)},
-                          {'what': 'fingerprint of pykdebugparser module globals differs before/after shard'})
+            # not a violation by itself (a harmless cache also changes module state): recorded in the evidence, and the
+            # oracles - which judge every case against a reference that is independent of earlier cases - decide
+            acc.count('shards_in_which_module_level_state_changed')
         return idx, acc, None
     except Exception:
         return idx, acc, traceback.format_exc()
